@@ -94,6 +94,36 @@ CLAIMED = {
           "reference. Bounded: taps 2-3, <= 7 windows/block, <= 3 blocks, branches 8/16."),
     technique="TLA+ model (TLC exhaustive) + spec-generated configurations recorded by the implementation, bytes compared with a reference pipeline",
     design_ref="DESIGN.md 4.10, 5 (C02)", engine="backend"),
+ "C04": dict(
+    text=("RawFiles.tla models GUPPI framing (cards, DIRECTIO padding rule, BLOCSIZE) and the library's readers by their "
+          "mechanism (fixed-size reads until EOF, 'last file' of a listing); TLC checks HeaderSizeRule, "
+          "ReadersAgreeWithParser and TotalBlocksListingInvariant for every header length 16..79 cards (each residue "
+          "mod 32 twice), DIRECTIO absent/0/1, 1-3 files, up to 9 blocks per file, partial last file and every listing "
+          "permutation. R: TLC-generated directories are written by the harness's own GUPPI writer and read by "
+          "read_header / get_blocks_in_file / get_blocks_per_file / get_total_blocks (listing order substituted) / "
+          "get_raw_params. T: real recordings with 0..39 extra user cards, template on/off, DIRECTIO absent/0/1/'1', "
+          "owned-field override attempts, template-overlapping zero-valued user cards, 1-4 blocks, 1-3 blocks/file, "
+          "antenna/array are parsed by the independent parser into traces validated by RawFilesTrace.tla (position, "
+          "padding, BLOCSIZE, PKTIDX step, owned fields, user cards, file count). Backend.tla adds BlocksPerFile / "
+          "PktIdxStep over two recordings per process."),
+    note=("Trusted: TLC, the independent parser/writer harness/guppi.py, float comparison of header values at 1e-12 "
+          "relative (card text formatting is a projection). Empty-string card values are not exercised."),
+    technique="TLA+ model (TLC exhaustive) + trace validation of recorded files + spec-generated directories read by the implementation",
+    design_ref="DESIGN.md 4.10-4.11, 5 (C04)", engine="rawfiles"),
+ "C20": dict(
+    text=("Accounting.tla fixes the closed forms over integers/rationals (samples per block, time per block, blocks for "
+          "a duration (k + r) blocks, totals, PKTSTOP, block size for a number of fine spectra); TLC checks SpbExact, "
+          "DurationBlocks, TotalsConsistent, HelperBlockSizeAdmitted over all enumerated configurations. Each emitted "
+          "configuration is instantiated: backend attributes, get_num_blocks for 12 durations (+-1e-12 at boundaries), "
+          "get_total_obs_num_samples in both modes, get_block_size, get_unit_drift_rate, params_from_backend / "
+          "from_backend_params, and a recording by duration (attributes, blocks on disk, SCANLEN, PKTSTOP, antenna "
+          "clock advance). Backend.tla adds SamplesDrawn / ClockAdvance and the exact antenna request sequence of "
+          "every recording."),
+    note=("Trusted: TLC rationals, python Fractions in the adapter; floats compared at 1e-12..1e-14 relative. Sample "
+          "rate 3e9 is reached by scaling 187.5e6 x16 (TLC integers are 32-bit). Sign of get_unit_drift_rate for "
+          "descending bands is not judged (absolute value compared)."),
+    technique="TLA+ model (TLC exhaustive) + spec-generated configurations replayed on the implementation",
+    design_ref="DESIGN.md 4.10, 5 (C20)", engine="accounting"),
 }
 
 NOT_YET = "check not built yet in this round (planned, see DESIGN.md 5); no claim is made"
